@@ -7,3 +7,10 @@ mod types;
 
 pub use state::H263State;
 pub use types::DecoderOption;
+
+/// Verification hooks: internal decoder primitives, re-exported unchanged.
+#[cfg(feature = "verif-hooks")]
+pub mod verif_hooks {
+    pub use super::cpu::{gather, idct_channel, inverse_rle, mv_decode, predict_candidate};
+    pub use super::picture::DecodedPicture;
+}
